@@ -207,6 +207,40 @@ def fifo_signal_crash(prog: dict, signal_at: int, pers: bool, crash_at: int, lat
         run.close()
 
 
+def poll_crash(prog: dict, times: int) -> dict:
+    """In-order run; the first RunTask message is polled `times` times by a worker that is killed right after the
+    poll commit (restart, lock lapse, sweep in between), then the run continues in order."""
+    run = Run(prog, "pollcrash")
+    try:
+        run.start()
+        left = times
+        for _ in range(3000):
+            rows = run.rows()
+            if not rows:
+                break
+            vis = [r for r in rows if not r["locked"] and not r["delayed"] and r["att"] < r["max"]]
+            if vis and left > 0 and vis[0]["typ"] == "RunTask":
+                left -= 1
+                run.crash_at = {run.commit_no + 1}
+                run.run_protected(lambda: run.deliver(None))
+                run.crash_at = set()
+                for row in run.rows():
+                    if row["locked"]:
+                        run.expire(row["qid"])
+                run.sweep()
+                continue
+            r = run.step_fifo()
+            if r == "empty":
+                break
+            if r == "locked":
+                for row in run.rows():
+                    if row["locked"]:
+                        run.expire(row["qid"])
+        return run.as_trace({"kind": "pollcrash", "times": times})
+    finally:
+        run.close()
+
+
 def fifo_steps(prog: dict) -> int:
     run = Run(prog, "cnt")
     try:
@@ -274,6 +308,8 @@ def job(spec: dict[str, Any]) -> list[dict]:
         return [schedule(prog, seed, **spec.get("opts", {})) for seed in spec["seeds"]]
     if kind == "inject":
         return [fifo_with_injection(prog, at, spec["what"], spec.get("times", 1)) for at in spec["at"]]
+    if kind == "pollcrash":
+        return [poll_crash(prog, k) for k in spec["cases"]]
     if kind == "signal-crash":
         return [fifo_signal_crash(prog, sa, spec.get("pers", True), c, spec.get("late_expire", False))
                 for (sa, c) in spec["cases"]]
